@@ -8,20 +8,53 @@ From HV Require Export Base.Prelude Base.GoUrl C15.Model C15.Spec.
 Record case := { c_req : request; c_pl : pipeline; c_rule : rule; c_obs : outcome }.
 
 (* constructors with short names for the generated case files *)
-Definition rq m raw qry host hs body peer tr xfu :=
+Definition rq m raw qry host hs body tls peer tr xfu :=
   {| q_method := m; q_raw := raw; q_query := qry; q_host := host; q_headers := hs; q_body := body;
-     q_peer := peer; q_trusted := tr; q_xfu := xfu |}.
+     q_tls := tls; q_peer := peer; q_trusted := tr; q_xfu := xfu |}.
 Definition pln hs cs := {| p_headers := hs; p_cookies := cs |}.
 Definition rwr s c a q := {| rw_scheme := s; rw_cut := c; rw_add := a; rw_strip_q := q |}.
-Definition rul st host rw tls := {| r_setting := st; r_backend := {| b_host := host; b_rw := rw |}; r_up_tls := tls |}.
+Definition rul st host rw tls tracing :=
+  {| r_setting := st; r_backend := {| b_host := host; b_rw := rw |}; r_up_tls := tls; r_tracing := tracing |}.
 Definition cs q p r o := {| c_req := q; c_pl := p; c_rule := r; c_obs := o |}.
+
+(** ** correspondence: the projection that is compared
+
+    Fields nobody sent (what Go's HTTP client or an instrumentation adds on its
+    own: Accept-Encoding: gzip, a default User-Agent, Via, trace context) are not
+    part of the property and are left out on both sides; so are the trace
+    propagation fields when tracing is on; a trailing transport-added `gzip` and
+    further User-Agent lines likewise.  Refusals are compared by status class. *)
+Definition strip_gzip (vs : list string) : list string :=
+  match rev vs with
+  | g :: r => if String.eqb g "gzip" && is_empty (first_or_empty (rev r)) then rev r else vs
+  | [] => vs
+  end.
+
+Definition project_entry (q : request) (pl : pipeline) (tracing : bool) (e : string * list string) : list (string * list string) :=
+  let k := fst e in
+  if negb (mem_str k (statement_names q pl) || is_forwarding_name k) then []
+  else if tracing && mem_str k propagation_names then []
+  else if String.eqb k "Accept-Encoding" then match strip_gzip (snd e) with [] => [] | vs => [(k, vs)] end
+  else if String.eqb k "User-Agent" then [(k, firstn 1 (snd e))]
+  else [e].
+
+Definition project (q : request) (pl : pipeline) (r : rule) (o : outcome) : outcome :=
+  match o with
+  | NotForwarded st => NotForwarded (st / 100)
+  | Forwarded tls m uri host hs body =>
+    Forwarded tls m uri host (flat_map (project_entry q pl (r_tracing r)) hs) body
+  end.
 
 Definition check (fx : fixes) (c : case) : verdict :=
   let q := c_req c in
-  {| v_corr := oracle_ok q && outcome_eqb (serve fx q (c_pl c) (c_rule c)) (c_obs c);
-     v_prop := spec_ok q (c_pl c) (c_rule c) (c_obs c);
-     v_guards := guards [(1%Z, guard_F1 q (c_rule c) && negb (fx_f1 fx)); (2%Z, guard_F2 q); (3%Z, guard_F3 q (c_rule c));
-                         (4%Z, guard_F4 q (c_pl c) && negb (fx_f4 fx)); (5%Z, guard_F5 (c_rule c))] |}.
+  let r := c_rule c in
+  {| v_corr := oracle_ok q &&
+               outcome_eqb (project q (c_pl c) r (serve fx q (c_pl c) r)) (project q (c_pl c) r (c_obs c));
+     v_prop := spec_ok q (c_pl c) r (c_obs c);
+     v_guards := guards [(1%Z, guard_F1 q r && negb (fx_f1 fx)); (2%Z, guard_F2 q); (3%Z, guard_F3 q r);
+                         (4%Z, guard_F4 q (c_pl c) && negb (fx_f4 fx)); (5%Z, guard_F5 r);
+                         (6%Z, guard_F6 q r && negb (fx_f6 fx)); (7%Z, guard_F7 q && negb (fx_f7 fx));
+                         (8%Z, guard_F8 (c_pl c) r)] |}.
 
 (** * units: Backend.CreateURL on arbitrary url.URL values *)
 
@@ -34,6 +67,11 @@ Definition ucs i h rw o e u := {| uc_in := i; uc_host := h; uc_rw := rw; uo_url 
     original; the host is forward_to.host; what the upstream decodes is what
     the transformed path decodes to (no double encoding, C15_decoded_path); the
     query is the original without the removed parameters *)
+(** C15-F6 on a bare query *)
+Definition uguard_F6 (names : list string) (qs : string) : bool :=
+  negb (is_nil names) && negb (is_empty qs) && negb (snd (parse_query qs)) &&
+  negb (String.eqb (values_encode (del_all names (fst (parse_query qs)))) (kept_settings names qs)).
+
 Definition uprop (c : ucase) : bool :=
   let u := uc_in c in
   let o := uo_url c in
@@ -45,12 +83,16 @@ Definition uprop (c : ucase) : bool :=
   | Some rw =>
     String.eqb (u_scheme o) (if is_empty (rw_scheme rw) then u_scheme u else rw_scheme rw) &&
     query_removed (rw_strip_q rw) (u_query u) (u_query o) &&
+    query_clause (rw_strip_q rw) (u_query u) (u_query o) &&
     let raw' := (rw_add rw ++ strip_prefix (rw_cut rw) (escaped_path (u_path u) (u_rawpath u)))%string in
     (negb (wellformed raw') || option_eqb String.eqb (unescape (uo_escaped c)) (unescape raw'))
   end.
 
 Definition ucheck (fx : fixes) (c : ucase) : verdict :=
-  let m := create_url_fx (fx_f1 fx) {| b_host := uc_host c; b_rw := uc_rw c |} (uc_in c) in
+  let m := create_url_q (fx_q fx) {| b_host := uc_host c; b_rw := uc_rw c |} (uc_in c) in
   {| v_corr := hurl_eqb m (uo_url c) && String.eqb (wire_path m) (uo_escaped c) && String.eqb (wire_uri m) (uo_uri c);
      v_prop := uprop c;
-     v_guards := [] |}.
+     v_guards := guards [(6%Z, match uc_rw c with
+                               | Some rw => uguard_F6 (rw_strip_q rw) (u_query (uc_in c)) && negb (fx_f6 fx)
+                               | None => false
+                               end)] |}.
